@@ -611,3 +611,57 @@ func VH_C11_session() {
 	}
 	rt.Observe("steps", steps)
 }
+
+// VH_C14_removeall: RepoCache.RemoveAll on a cache whose entities were loaded on demand
+// (and are tracked by the LRU): afterwards nothing is found, and the same cache instance
+// keeps working — new bugs can be created and resolved under memory pressure, and the cache
+// agrees with a rebuild.
+func VH_C14_removeall() {
+	w := vhNewWorld()
+	var ids []entity.Id
+	for n := 0; n < 3; n++ {
+		id, h := w.storeBug(n, w.alice, fmt.Sprintf("t%d", n), 0)
+		w.r.SetRef("refs/bugs/"+id.String(), h)
+		ids = append(ids, id)
+	}
+	w.syncClocks()
+	c, err := NewRepoCacheNoEvents(w.r)
+	rt.Assume(err == nil)
+	if rt.Choose(2) == 1 {
+		// reopen: entities are then loaded on demand and tracked by the LRU
+		rt.Assume(c.Close() == nil)
+		c, err = NewRepoCacheNoEvents(w.r)
+		rt.Assume(err == nil)
+		for _, id := range ids {
+			_, rerr := c.Bugs().Resolve(id)
+			rt.Assert(rerr == nil, "resolve-before-removal")
+		}
+		rt.Cover("loaded-on-demand")
+	}
+	rt.Assert(c.Bugs().RemoveAll() == nil, "remove-all")
+	rt.Assert(len(c.Bugs().AllIds()) == 0, "nothing-listed-after-remove-all")
+	for _, id := range ids {
+		_, rerr := c.Bugs().ResolveExcerpt(id)
+		rt.Assert(rerr != nil, "removed-bug-not-found")
+	}
+	refs, _ := w.r.ListRefs("refs/bugs/")
+	rt.Assert(len(refs) == 0, "no-bug-ref-left")
+	// the cache goes on being used
+	c.setCacheSize(1)
+	panicked, _ := rt.Try(func() {
+		for k := 0; k < 3; k++ {
+			b, _, nerr := c.Bugs().New(fmt.Sprintf("after%d", k), "m")
+			rt.Assert(nerr == nil, "new-bug-after-remove-all")
+			if nerr == nil {
+				_, rerr := c.Bugs().Resolve(b.Id())
+				rt.Assert(rerr == nil, "new-bug-resolves-after-remove-all")
+			}
+		}
+	})
+	rt.Assert(!panicked, "cache-usable-after-remove-all")
+	if !panicked {
+		rt.Assert(len(c.Bugs().AllIds()) == 3, "exactly-the-new-bugs-listed")
+		vhCoherent(c, w, "-after-remove-all")
+	}
+	rt.Cover("removed-all")
+}
